@@ -334,6 +334,8 @@ def run_check(prop, tier, seed):
         ck.cov['cegar_refinements'] = getattr(pr2, 'refinements', 0)
 
     ck.absorb(pr)
+    if prop == 'C05' and tier == 'thorough':
+        fp_exact_crosscheck(ck, seed)
     ck.cov['cegar_refinements'] = ck.cov.get('cegar_refinements', 0) + getattr(pr, 'refinements', 0)
     ck.cov['rule'] = ('one obligation per (return path of now(), property clause) and per panic/overflow site; an obligation is counted as '
                       'non-trivial when its path condition is satisfiable in the domain (vacuity twin query)')
@@ -342,6 +344,39 @@ def run_check(prop, tier, seed):
     for rp in rps:
         rp.close()
     return ck.finish()
+
+
+def fp_exact_crosscheck(ck, seed, drifts=((1000, 20), (50000, 20), (999999999, 10)), bits=20):
+    """thorough tier: the enclosure used for the float island ((el as f64)/1e9 * drift as f64) as i64 is re-checked against z3's
+    exact IEEE-754 semantics (Float64 theory) at reduced width: elapsed < 2^bits ns, constant drift.  This validates the float
+    MODEL (it is the 'second encoding' of the island); it is not the claim."""
+    import time as _t
+    res = []
+    for D, bits in drifts:
+        s = z3.Solver(); s.set('timeout', 600000); s.set('random_seed', seed & 0x7fffffff)
+        el = z3.BitVec('el', 64)
+        s.add(z3.ULT(el, z3.BitVecVal(2 ** bits, 64)))
+        rne, rtz = z3.RNE(), z3.RTZ()
+        F = z3.Float64()
+        x = z3.fpSignedToFP(rne, el, F)
+        y = z3.fpDiv(rne, x, z3.FPVal(1e9, F))
+        zf = z3.fpMul(rne, y, z3.fpSignedToFP(rne, z3.BitVecVal(D, 64), F))
+        g = z3.fpToSBV(rtz, zf, z3.BitVecSort(64))
+        W = 160
+        g_, el_ = z3.SignExt(W - 64, g), z3.ZeroExt(W - 64, el)
+        Pm = el_ * z3.BitVecVal(D, W)
+        E = z3.BitVecVal(2 ** 52, W); kk = z3.BitVecVal(4, W); den = z3.BitVecVal(10 ** 9, W)
+        ok = z3.And(g_ >= 0, z3.ULE(g_ * den * E, Pm * (E + kk)), (g_ * den * E) + den * E > Pm * (E - kk))
+        s.add(z3.Not(ok))
+        t0 = _t.time()
+        r = s.check()
+        res.append({'drift_ppb': D, 'elapsed_bits': bits, 'verdict': 'enclosure holds for every input (unsat)' if r == z3.unsat else str(r), 'solver_s': round(_t.time() - t0, 1)})
+        ck.cov['queries'] += 1; ck.cov['evaluations'] += 1
+        if r == z3.sat:
+            ck.inconclusive.append('exact-FP cross-check: the float enclosure is violated at elapsed=%s drift=%d (float model unsound)' % (s.model()[el], D))
+        elif r != z3.unsat:
+            ck.cov.setdefault('notes', []).append('exact-FP cross-check undecided for drift %d' % D)
+    ck.cov['exact_fp_crosscheck'] = res
 
 
 def validate_translator(ck, prog, nm, outs, pr, seed, nrand):
